@@ -14,7 +14,7 @@ RULE = ("Hypothesis draws variable lists (any mix and order of the seven variabl
         "dimension = sum of sizes; get_bounds has one (lo,hi) per coordinate equal to the declaration, lo<=hi; "
         "empty/initial/corrected solutions have one coordinate per dimension and are members; correct_solution is "
         "coordinate-wise the owner's rule (checked against a stand-alone variable built from the same declaration); transform_solution has exactly the declared names as keys, in order, each "
-        "holding the reference decoding of its slice. Non-trivial = >= 2 variables of different types, or a "
+        "holding the reference decoding of its slice, and the same position given as a numpy array decodes alike. Non-trivial = >= 2 variables of different types, or a "
         "multi-variable of size 1, or a DiscreteMultiVariable; distinct = SHA-256 of the case.")
 ASSUMPTIONS = ["get_bounds law is not applied to 'permutation + other variables' (ragged bounds; not a documented "
                "combination); all other laws are", "transform_solution is applied to members only (its documented use)",
@@ -222,6 +222,17 @@ def laws(payload):
                 out.append((key("transform-value"), f"{v['name']}: got {d[v['name']]!r}, expected {exp!r}"[:300]))
                 break
             off += sz
+        if payload["as_array"] and (not has_perm or len(vs) == 1):
+            # the same member position handed over as a numpy array decodes to the same values
+            try:
+                arr = np.array(c)
+                d2 = task.transform_solution(arr)
+                if list(d2.keys()) != list(d.keys()) or not all(c13._eq(d2[k], d[k]) for k in d):
+                    out.append((key("transform-array"), f"transform_solution(array{arr.shape}) -> {d2!r}, the list "
+                                                        f"position gives {d!r}"[:300]))
+            except Exception as e:  # noqa: BLE001
+                out.append((key("transform-array-raises"), f"transform_solution(np.array({c!r})): "
+                                                           f"{type(e).__name__}: {e}"[:300]))
     nontrivial = (len(set(types)) >= 2 or "DiscreteMultiVariable" in types
                   or any(sz == 1 and v["type"] in ("ContinuousMultiVariable", "MultiObjectiveVariable",
                                                    "DiscreteMultiVariable", "BinaryVariable")
